@@ -31,7 +31,7 @@ META = {
                     'by a one-letter marker token; no catcode op inside an argument group; \\gdef writes the bottom frame and '
                     'may be shadowed by a live local definition (lookup yields the innermost live definition)',
                     'no fault space exists for this property (sequential refinement only)'],
-    'probe_names': ['char_let_shadowed', 'local_def_restored', 'global_def_survives', 'let_restored', 'catcode_restored', 'if_survives', 'counter_survives',
+    'probe_names': ['declaration_frame', 'change_after_declaration_restored', 'char_let_shadowed', 'local_def_restored', 'global_def_survives', 'let_restored', 'catcode_restored', 'if_survives', 'counter_survives',
                     'nested_depth_ge3', 'env_inside_group', 'group_inside_env', 'math_group', 'cell_scope', 'argument_group',
                     'gdef_shadowed', 'catcode_cow_two_frames'],
     'shrink_budget': 400,
@@ -54,7 +54,7 @@ def generate(seed, tier):
     weights = {'OPEN': r.choice([1, 2, 3]), 'CLOSE': r.choice([1, 2, 3]), 'DEF_LOCAL': r.choice([0, 2, 3]),
                'DEF_GLOBAL': r.choice([0, 1, 2]), 'LET': r.choice([0, 1, 2]), 'CATCODE': r.choice([0, 1, 2]),
                'SETIF': r.choice([0, 1]), 'STEP': r.choice([0, 1]), 'PROBE': 3, 'CELLSEP': r.choice([0, 1]),
-               'LETCHAR': r.choice([0, 1, 2])}
+               'LETCHAR': r.choice([0, 1, 2]), 'DECL': r.choice([0, 1, 2])}
     kinds = [k for k, w in weights.items() for _ in range(w)]
     while len(ops) < n:
         o = r.choice(kinds)
@@ -85,6 +85,8 @@ def generate(seed, tier):
             ops.append({'op': 'CATCODE', 'code': r.choice([11, 12, 11, 12, 13])})
         elif o == 'LETCHAR':
             ops.append({'op': 'LETCHAR', 'dst': r.choice(['la', 'lb']), 'ch': r.choice('uvw')})
+        elif o == 'DECL':
+            ops.append({'op': 'DECL', 'name': r.choice(['small', 'itshape', 'bfseries', 'large', 'centering'])})
         elif o == 'SETIF':
             ops.append({'op': 'SETIF', 'value': r.random() < 0.5})
         elif o == 'STEP':
@@ -160,8 +162,27 @@ class Model(object):
         if kind in ARG_KINDS:
             self.info['argument_group'] = 1
 
+    def decl(self, name):
+        self.frames.append({'macros': {}, 'lets': {}, 'cats': {}, 'kind': 'decl'})
+        self.info['declaration_frame'] = 1
+
     def close(self):
+        merged = {'macros': {}, 'cats': {}}
+        while self.frames[-1]['kind'] == 'decl':
+            d = self.frames.pop()           # a declaration's frame ends with the group that encloses it
+            for key in ('macros', 'cats'):
+                merged[key].update(d[key])
+            for key in ('let', 'gdef', 'setif', 'step'):
+                if d.get(key):
+                    merged[key] = 1
+            if d['macros'] or d['cats'] or d.get('let'):
+                self.info['change_after_declaration_restored'] = 1
         f = self.frames.pop()
+        for key in ('macros', 'cats'):
+            f[key] = dict(f[key], **merged[key])
+        for key in ('let', 'gdef', 'setif', 'step'):
+            if merged.get(key):
+                f[key] = 1
         if f['macros']:
             self.info['local_def_restored'] = 1
         if f['cats']:
@@ -237,15 +258,17 @@ def run_api(ops):
     for k, op in enumerate(ops):
         o = op['op']
         if o == 'OPEN':
-            if op['kind'] in ('center', 'quote'):
+            if op['kind'] in ('center', 'quote', 'textbf', 'mbox'):
                 obj = doc.createElement(op['kind'])
-                obj.parentNode = objs[-1] if objs and objs[-1] is not None else None
                 ctx.push(obj)
                 objs.append(obj)
             else:
                 ctx.push()
                 objs.append(None)
             m.open(op['kind'])
+        elif o == 'DECL':
+            ctx.push(doc.createElement(op['name']))
+            m.decl(op['name'])
         elif o == 'CLOSE':
             obj = objs.pop()
             ctx.pop(obj)
@@ -303,7 +326,7 @@ def run_api(ops):
         if int(ctx.counters['cx'].value) != m.counter:
             raise ApiViolation('C04|api|counter', {'step': k, 'op': op, 'real': int(ctx.counters['cx'].value), 'model': m.counter})
         states.append(m.digest())
-    if len(ctx.contexts) != base_depth:
+    if len(ctx.contexts) - base_depth != len(m.frames) - 1 or any(f['kind'] != 'decl' for f in m.frames[1:]):
         raise ApiViolation('C04|api|final-depth', {'real': len(ctx.contexts), 'initial': base_depth})
     return m, states
 
@@ -390,6 +413,11 @@ def compile_tex(ops):
         elif o == 'LET':
             src.append('\\let\\%s=\\%s ' % (op['dst'], op['src']))
             m.let(op['dst'], op['src'])
+        elif o == 'DECL':
+            if in_math or not stack:
+                continue        # text declarations only, and only inside some group (a top-level one lasts to the end)
+            src.append('\\%s ' % op['name'])
+            m.decl(op['name'])
         elif o == 'CATCODE':
             if in_arg or op['code'] == 13:
                 continue
@@ -437,8 +465,8 @@ def execute(record):
     for tr in record['swarm'].get('transports', ['api', 'tex']):
         try:
             if tr == 'api':
-                api_ops = [dict(o, kind={'center': 'center', 'quote': 'quote'}.get(o.get('kind'), 'group')) if o['op'] == 'OPEN' else o
-                           for o in ops if o['op'] != 'CELLSEP']
+                api_ops = [dict(o, kind={'center': 'center', 'quote': 'quote', 'textbf': 'textbf', 'mbox': 'mbox'}.get(o.get('kind'), 'group'))
+                           if o['op'] == 'OPEN' else o for o in ops if o['op'] != 'CELLSEP']
                 m, st = run_api(api_ops)
                 states.extend(st)
                 info.update(m.info)
